@@ -193,6 +193,9 @@ enum Unit {
         /// alternative: the inner text of the (nested) block whose first statement starts with this string
         #[serde(default)]
         block_from: String,
+        /// alternative: the ONE (possibly nested) statement whose text starts with this string
+        #[serde(default)]
+        stmt_at: String,
         /// the function sits in `impl <of_trait> for <self_ty>` (default: an inherent impl; `self_ty` empty: a free fn)
         #[serde(default)]
         of_trait: String,
@@ -1273,6 +1276,16 @@ impl<'a> Rw<'a> {
                 // only ever used to build error-message strings: value is opaque
                 self.replace(whole, "opaque_string()".to_string(), "R11-format");
             }
+            "parenthesized" => {
+                // `parenthesized!(content in input)` assigns the parenthesised sub-stream to the declared local and
+                // returns early with the error otherwise (definition of the syn macro)
+                let toks: Vec<String> = mac.tokens.clone().into_iter().map(|t| t.to_string()).collect();
+                if toks.len() == 3 && toks[1] == "in" {
+                    self.replace(whole, format!("{} = parenthesized_in({})?", toks[0], toks[2]), "R11-parenthesized");
+                } else {
+                    self.errors.push("R11: unsupported form of parenthesized!".to_string());
+                }
+            }
             "Token" => {
                 let t: String = mac
                     .tokens
@@ -1787,7 +1800,29 @@ impl<'a> Rw<'a> {
 /// R15: byte range of the text to lift out of a function body: the inner text of the (nested) block whose first
 /// statement starts with `block_from`, or the statements from the one starting with `stmts_from` to the end, or the
 /// body of the k-th closure (source order)
-fn find_lift_range(text: &str, block: &syn::Block, block_from: &str, stmts_from: &str, closure: usize) -> Option<(usize, usize)> {
+fn find_lift_range(text: &str, block: &syn::Block, block_from: &str, stmts_from: &str, stmt_at: &str, closure: usize) -> Option<(usize, usize)> {
+    struct FindStmt<'t> {
+        text: &'t str,
+        from: &'t str,
+        out: Option<(usize, usize)>,
+    }
+    impl<'ast, 't> Visit<'ast> for FindStmt<'t> {
+        fn visit_stmt(&mut self, st: &'ast syn::Stmt) {
+            if self.out.is_none() {
+                let (ss, se) = br(st.span());
+                if self.text[ss..].starts_with(self.from) {
+                    self.out = Some((ss, se));
+                    return;
+                }
+            }
+            syn::visit::visit_stmt(self, st);
+        }
+    }
+    if !stmt_at.is_empty() {
+        let mut fs = FindStmt { text, from: stmt_at, out: None };
+        fs.visit_block(block);
+        return fs.out;
+    }
     struct Find {
         k: usize,
         want: usize,
@@ -3596,6 +3631,7 @@ fn main() {
                 closure,
                 stmts_from,
                 block_from,
+                stmt_at,
                 of_trait,
                 ret_wrap,
                 header,
@@ -3610,7 +3646,7 @@ fn main() {
                     for it in &items {
                         if let syn::Item::Fn(f) = it {
                             if self_ty.is_empty() && f.sig.ident == func.as_str() && !skip_by_cfg(&f.attrs) {
-                                found = find_lift_range(&src.text, &f.block, block_from, stmts_from, *closure);
+                                found = find_lift_range(&src.text, &f.block, block_from, stmts_from, stmt_at, *closure);
                             }
                         }
                         if let syn::Item::Impl(im) = it {
@@ -3623,7 +3659,7 @@ fn main() {
                                     if f.sig.ident != func.as_str() || skip_by_cfg(&f.attrs) {
                                         continue;
                                     }
-                                    found = find_lift_range(&src.text, &f.block, block_from, stmts_from, *closure);
+                                    found = find_lift_range(&src.text, &f.block, block_from, stmts_from, stmt_at, *closure);
                                 }
                             }
                         }
